@@ -63,8 +63,8 @@ Definition holds (c : case) : bool :=
       (* each once, ascending *)
       && strictly_ascending ps
       (* exactly the networks of the eligible addresses *)
-      && forallb (fun p => existsb (fun a => spec_eligible (c_bits c) a && (spec_net (ip_addr a) (c_bits c) =? p)) l) ps
-      && forallb (fun a => if spec_eligible (c_bits c) a then memN (spec_net (ip_addr a) (c_bits c)) ps else true) l
+      && (let nets := map (fun a => spec_net (ip_addr a) (c_bits c)) (filter (spec_eligible (c_bits c)) l) in
+          forallb (fun p => memN p nets) ps && forallb (fun p => memN p ps) nets)
   end.
 
 Definition known (c : case) : N := 0.
